@@ -11,6 +11,12 @@ const maxBrandCount = 8
 //
 // This should be the first read function called.
 func (r *Reader) ReadFTYP() (err error) {
+	defer func() {
+		if state := recover(); state != nil {
+			err = state.(error)
+		}
+	}()
+
 	b, err := r.readBox()
 	if err != nil {
 		return errors.Wrapf(err, "ReadFTYPBox")
